@@ -25,9 +25,12 @@ import JsonV.Lemmas.EncInvSound
 import JsonV.Lemmas.EncInvGrammar
 import JsonV.Lemmas.EncInvInst
 import JsonV.Lemmas.NumFloat
-import JsonV.Props.C10Glue
+import JsonV.Props.C10
+import JsonV.Lemmas.NumJNumber
 import JsonV.Props.C01
 import JsonV.Lemmas.QuoteJString
+import JsonV.Lemmas.EncInvNames
+import JsonV.Lemmas.EncInvL3
 
 namespace JsonV.Props.C02
 open JsonV JsonV.Model JsonV.Spec.ValidJson JsonV.Model.EncInv
@@ -46,7 +49,7 @@ theorem uint_digits_valid (o : Opt) (d n : Nat) : validAt o d (natDigits n) = tr
   validAt_natDigits o d n
 
 /-- The rendering consists of digits only, is not empty, and has a leading zero only for 0. -/
-theorem uint_digits_shape (n : Nat) : natDigits n ≠ [] ∧ (∀ c ∈ natDigits n, isDigit c = true) ∧
+theorem uint_digits_shape (n : Nat) : natDigits n ≠ [] ∧ (∀ c ∈ natDigits n, JsonV.Spec.ValidJson.isDigit c = true) ∧
     (∀ c ds, natDigits n = c :: ds → c = 0x30 → n = 0) :=
   ⟨natDigits_ne_nil n, natDigits_digits n, natDigits_head n⟩
 
@@ -172,12 +175,13 @@ theorem ints_are_numbers (n : Nat) (i : Int) :
     JNumber (JsonV.Model.Number.formatUint n) ∧ JNumber (JsonV.Model.Number.formatInt i) := by
   rw [formatUint_eq, formatInt_eq]; exact ⟨jnumber_natDigits n, jnumber_intDigits i⟩
 
-/-- Floats: slice num's `float_is_JNumber` (Props/C10Glue.lean) — jsonwire.AppendFloat's output on every
+/-- Floats: slice num's `float_is_JNumber` (Props/C10Glue.lean; proved here from the same two lemmas, `float_layout`
+and `jnumber_numberToString`, to keep Lemmas/CanonAtom.lean out of this file's imports) — jsonwire.AppendFloat's output on every
 well-formed shortest decomposition is a number of the grammar; so a float fragment `Frag.num` can always be
 built from it (`float_frag`), and the law that `Frag.num` carries is no longer a parameter. -/
 theorem float_fragment (neg : Bool) (ds : List Nat) (n : Int) (h : JsonV.Lemmas.NumFloat.WFD ds n) :
     JNumber (JsonV.Model.Number.appendFloat neg ds n) :=
-  JsonV.Props.C10Glue.float_is_JNumber neg ds n h
+  by rw [JsonV.Props.C10.float_layout neg ds n h]; exact JsonV.Lemmas.NumJNumber.jnumber_numberToString neg ds n h
 
 /-- the recogniser's number scanner accepts every number of the grammar (completeness for numbers), which is what
 `Frag.num` stores -/
@@ -215,6 +219,70 @@ theorem render_accepted_real (vo : JsonV.Model.Validate.VOpts) (f : QFlags)
     JsonV.Model.Validate.isValid vo (t.render (realQuote f)) = true :=
   render_accepted vo (realQuote f) (fun s => quote_is_string f _ s) t hw hd
 
+/-! ### the condition on names, stated on the Go side -/
+
+/-- The decoder's key of a quoted Go name is the name with ill-formed bytes replaced by U+FFFD (slice quote,
+Lemmas/GlueNameKey.lean) — the analogue of `name_key_real` for the key that `render_accepted` uses. -/
+theorem name_key_decoder (vo : JsonV.Model.Validate.VOpts) (f : QFlags) (n : Bytes) :
+    (optOf vo).key (realQuote f n) = JsonV.Spec.StringSpec.lossy n := by
+  show JsonV.Props.C01.nameKey vo (appendQuote f n).1 = _
+  unfold JsonV.Props.C01.nameKey
+  exact JsonV.Lemmas.GlueNameKey.unescapedName_appendQuote vo f n
+
+/-- **`render_accepted` with the names condition on the Go side.**  If within every object of the tree the Go-side
+names are pairwise different once ill-formed bytes are replaced by U+FFFD (`NamesOK … lossy`; only required when
+duplicates are not allowed), the rendering with the modelled AppendQuote is accepted by the decoder-side validator
+model.  Nothing is assumed about quoted spellings or keys any more. -/
+theorem render_accepted_names (vo : JsonV.Model.Validate.VOpts) (f : QFlags) (t : OutTree)
+    (hn : t.NamesOK (!vo.allowDup) JsonV.Spec.StringSpec.lossy) (hd : t.depth ≤ JsonV.Model.Validate.maxNestingDepth) :
+    JsonV.Model.Validate.isValid vo (t.render (realQuote f)) = true :=
+  render_accepted_real vo f t
+    (JsonV.Lemmas.EncInvNames.wf_of_namesOK (optOf vo) (realQuote f) _ (name_key_decoder vo f) t hn) hd
+
+/-! ### one default marshal path end to end: the L3 model of slices C04/C14 as a tree emitter -/
+
+open JsonV.Lemmas.EncInvL3 in
+/-- The bytes the L3 model `mar` (Model/Marshal.lean: bool, ints, floats, strings, slices, arrays, map[string]T,
+pointers, structs, `any`; Deterministic) writes with the modelled AppendQuote: its tree, as a fragment tree, rendered. -/
+def l3Bytes (mo : JsonV.Model.MOpts) (f : QFlags) (T : JsonV.Model.GoType) (v : JsonV.Model.GoVal) : Option Bytes :=
+  match JsonV.Model.mar mo T v with
+  | .ok j => some ((toOut j).render (realQuote f))
+  | .error _ => none
+
+open JsonV.Lemmas.EncInvL3 in
+/-- **The L3 marshal model emits trees** (the `EmitsTree` obligation, for this model): whenever it succeeds on a
+well-typed value of a well-formed type (struct field names valid UTF-8, float literals JSON numbers — the two things
+the L3 model leaves to its parameters), its output is the rendering of a `WellFormed` fragment tree, for every option
+record whose key sends a quoted name to the normalised name (both the AppendUnquote key and the decoder's key do). -/
+theorem l3_emits_tree (o : Opt) (f : QFlags) (hk : ∀ n, o.key (realQuote f n) = JsonV.Spec.StringSpec.lossy n)
+    (mo : JsonV.Model.MOpts) (T : JsonV.Model.GoType) (v : JsonV.Model.GoVal) (out : Bytes)
+    (hwf : T.wf = true) (hn : namesUtf8 T = true) (ht : JsonV.Model.hasType T v = true) (hf : floatsOK v = true)
+    (h : l3Bytes mo f T v = some out) :
+    ∃ t : OutTree, t.WellFormed o (realQuote f) ∧ out = t.render (realQuote f) := by
+  unfold l3Bytes at h
+  cases hm : JsonV.Model.mar mo T v with
+  | error e => simp [hm] at h
+  | ok j =>
+    simp only [hm, Option.some.injEq] at h
+    exact ⟨toOut j, l3_wellFormed o (realQuote f) hk mo T v j hwf hn ht hf hm, h.symm⟩
+
+open JsonV.Lemmas.EncInvL3 in
+/-- **`marshal_valid` for the L3 model, end to end.**  For every well-formed type of the modelled universe
+(structs, maps, slices, arrays, pointers, interfaces, scalars) and every well-typed value, if the model marshals it
+(it always does: C04 `mar_total`) and the output nests within the limit, the BYTES are exactly one RFC 8259 / RFC 7493
+text that the decoder-side validator model accepts — under either duplicate policy and either UTF-8 mode, with every
+escaping flag.  The tie between the L3 model and the reflection code of arshal_default.go is CORRESPONDENCE ONLY
+(the `arsh` operations of slices c04/c14 in the harness); this theorem is about the model. -/
+theorem l3_marshal_valid (vo : JsonV.Model.Validate.VOpts) (f : QFlags) (mo : JsonV.Model.MOpts)
+    (T : JsonV.Model.GoType) (v : JsonV.Model.GoVal) (j : JsonV.Spec.JTree)
+    (hwf : T.wf = true) (hn : namesUtf8 T = true) (ht : JsonV.Model.hasType T v = true) (hf : floatsOK v = true)
+    (h : JsonV.Model.mar mo T v = .ok j) (hd : (toOut j).depth ≤ JsonV.Model.Validate.maxNestingDepth) :
+    l3Bytes mo f T v = some ((toOut j).render (realQuote f)) ∧
+    JsonV.Model.Validate.isValid vo ((toOut j).render (realQuote f)) = true := by
+  refine ⟨by simp [l3Bytes, h], ?_⟩
+  exact render_accepted_real vo f (toOut j)
+    (l3_wellFormed (optOf vo) (realQuote f) (name_key_decoder vo f) mo T v j hwf hn ht hf h) hd
+
 /-! ### what remains between these theorems and C02 -/
 
 /-- A marshal model (bytes out, or failure) EMITS TREES when every successful output is the rendering — with the
@@ -234,8 +302,10 @@ theorem marshal_valid_of_emitsTree {Val : Type} (marshal : Opt → QFlags → Va
 /-- **Precisely what remains unproved for C02 on the default (no user code, no whitespace) paths:** that the reflection code of arshal_default.go / arshal_any.go / arshal_embedded.go, as a function from
 (options, Go value) to bytes-or-error, emits trees — i.e. that it only ever appends the fragments of
 `Model/EncInv.lean` in the nesting of an `OutTree`, with pairwise different names per object when duplicates
-are not allowed and within the nesting limit.  There is no byte-level Lean model of that code (slice C04's
-`Model/Marshal.lean` models it at the tree level, tied to the code by differential testing), so the statement is
+are not allowed and within the nesting limit.  For the tree-level L3 model of slices C04/C14 (`Model/Marshal.lean`) the obligation IS proved above
+(`l3_emits_tree`, `l3_marshal_valid`); that model is tied to the code by differential testing only, and it does
+not cover user code, options beyond two, omit*/string/format tags, embedded fallbacks or non-string map keys.
+There is no byte-level Lean model of the reflection code itself, so the statement is
 a predicate on `code`, to be instantiated with a byte-level model of the reflection code once one exists; harness/c02.go validates the conclusion of
 `marshal_valid_of_emitsTree` on the real code for 6·10^4 / 2·10^6 generated programs per run. -/
 def marshal_valid_full {Val : Type} (code : Opt → QFlags → Val → Option Bytes) : Prop := EmitsTree code
@@ -349,5 +419,13 @@ example : JsonV.Model.Validate.isValid {}
     ((OutTree.arr [.atom (.int (-5)), .obj [([0x61, 0xff], .atom .emptyArr)], .atom (.str [0x22])]).render (realQuote {})) = true :=
   render_accepted_real {} {} _ (by simp [OutTree.WellFormed, wfList, wfMembers, renderMembers])
     (by simp [OutTree.depth, depthList, depthMembers, Frag.depth]; decide)
+
+-- `l3_marshal_valid` applies: []bool{true} and struct{A []bool "a"}{…} through the L3 model
+example : JsonV.Model.Validate.isValid {}
+    ((JsonV.Lemmas.EncInvL3.toOut (.obj [([0x61], .arr [.bool true])])).render (realQuote {})) = true :=
+  (l3_marshal_valid {} {} {} (.struct [([0x61], .slice .bool)]) (.structOf [([0x61], .sliceOf [.bool true])])
+    (.obj [([0x61], .arr [.bool true])]) (by decide) (by decide) (by decide) (by decide) (by rfl)
+    (by simp [JsonV.Lemmas.EncInvL3.toOut, JsonV.Lemmas.EncInvL3.toOutM, JsonV.Lemmas.EncInvL3.toOutL, OutTree.depth,
+      depthList, depthMembers, Frag.depth]; decide)).2
 
 end JsonV.Props.C02
